@@ -247,6 +247,8 @@ def json_docs():
         '{"kids":[{"u_type":"B","u":%s,"kids":[{"uv_type":["A"],"uv":[%s]}]},{"name":"k2","u2_type":"A","u2":%s}],"pos":{"x":1,"y":2,"z":3}}' % (b, a, a),
         '{"nested":{"name":"inner","u_type":"A","u":%s},"u_type":"B","u":%s}' % (a, b),
         '{"name":"deep","kids":[{"kids":[{"kids":[{"kids":[{"kids":[{"u_type":"A","u":%s}]}]}]}]}]}' % a,
+        '{"u_type":"Str","u":"a string member","u2":"value first \\n escaped","u2_type":"Str","name":"s"}',
+        '{"uv_type":["Str","A","Str"],"uv":["first",%s,"third \\u0041"],"n":1}' % a,
     ]
     return docs
 
@@ -272,6 +274,23 @@ DEFECT_FIELDS = {'user_frame_offset': 'user-frame-leak', 'user_frame_end': 'user
                  'block_align': 'stale-block-align'}
 # forgotten fields that are dead at level 0 (always overwritten before they are read): no property consequence
 DEAD_FIELDS = {'align', 'id_end', 'buffer_mark', 'buffer_flags', 'identifier', 'c_vs'}
+
+
+# reset_equiv on the implementation: fields that must equal those of a freshly initialised builder with the same settings
+CORE_FIELDS = ['vs_off', 'pl_off', 'ds_offset', 'ds_first', 'vb_end', 'min_align', 'block_align', 'emit_start', 'emit_end', 'nest_count', 'nest_id',
+               'level', 'vb_flush_limit', 'max_level', 'disable_vt_clustering', 'user_frame_offset', 'user_frame_end', 'e_used', 'rm_count']
+
+
+def deep_build(depth):
+    """a chain of `depth` tables, each opened inside its open parent (nesting level depth + 1)"""
+    s = Script()
+    s.emit('sb:0:0:0')
+    for _ in range(depth): s.emit('st:1')
+    k = s.emit('et')
+    for _ in range(depth - 1):
+        s.emit('to:0:$%d' % k); k = s.emit('et')
+    s.emit('eb:$%d' % k)
+    return s
 
 
 def footprint(sn):
